@@ -58,19 +58,18 @@ def run(prog, world, sem, rep):
         sv, sbb, se = stores[0]
         # caller-side arguments of the storing function (structurally: the visit that writes the bucket, called from the handler)
         call_v = sv
-        while call_v.parent is not None and call_v.parent[0] is not hv:
-            call_v = call_v.parent[0]
-        cblk = hv.body.blocks[call_v.parent[1]]
-        cexpr = hv.resolve(hv.be.ev_call(call_v.parent[1], cblk.term))
+        caller = call_v.parent[0]
+        cblk = caller.body.blocks[call_v.parent[1]]
+        cexpr = caller.resolve(caller.be.ev_call(call_v.parent[1], cblk.term))
         args = list(cexpr.args)
         labs = [sem.label(a) for a in args]
         # identify argument roles by provenance, not by position
         id_args = [a for a, l in zip(args, labs) if l == stored(BATCH, "id")]
         sender_args = [a for a, l in zip(args, labs) if l is not None and l[0] == "param" and l[4][-1:] == ("sender",)]
         rep.ob("C07.a", "%s unbond: batch key = CurrentBatch.id as loaded" % tk, len(id_args) == 1,
-               "store arguments %s" % [pl(l) for l in labs], where(hv.body, call_v.parent[1]))
+               "store arguments %s" % [pl(l) for l in labs], where(caller.body, call_v.parent[1]))
         rep.ob("C07.a", "%s unbond: claim owner = Cw20ReceiveMsg.sender" % tk, len(sender_args) == 1,
-               "store arguments %s" % [pl(l) for l in labs], where(hv.body, call_v.parent[1]))
+               "store arguments %s" % [pl(l) for l in labs], where(caller.body, call_v.parent[1]))
         # --- written wait entity (specialised closure)
         (_, _, wkind, _, wkey, wval, _) = [x for x in eff if x[3] == NEWWAIT and x[2] in ("write", "update")][0]
         wv = written_value_in(sem, vs, sv, wkind, NEWWAIT, wval)
